@@ -1,4 +1,5 @@
 import O4.Lemmas.Obfs4Server
+import O4.Generated.Facts.Obfs4
 /-!
 # C03 — the obfs4 server is silent to anyone who cannot prove knowledge of the bridge line
 
@@ -261,5 +262,22 @@ example :
 
 /-- the deployed constants give the 30–90 s range -/
 example : closeDeadline 0 0 = 30 * second ∧ closeDeadline 0 59 = 89 * second := by decide
+
+/-- **structural facts, regenerated from the Go source on every run (go/ast call sets)**: the close
+    delay is drawn (`rng.Intn`) in `ServerFactory` — once per bridge — and never in `WrapConn`;
+    `WrapConn` sends every failed handshake through `closeAfterDelay`; `closeAfterDelay` arms a
+    read deadline, discards with `io.Copy`, closes, and contains no call that writes to the
+    peer.  (What the model's event machine assumes about *where* these things happen.) -/
+theorem close_path_structure :
+    "rng.Intn" ∈ O4.Facts.Obfs4.Transport_ServerFactory_calls ∧
+    "rng.Intn" ∉ O4.Facts.Obfs4.obfs4ServerFactory_WrapConn_calls ∧
+    "rng.Intn" ∉ O4.Facts.Obfs4.obfs4Conn_closeAfterDelay_calls ∧
+    "c.closeAfterDelay" ∈ O4.Facts.Obfs4.obfs4ServerFactory_WrapConn_calls ∧
+    "Conn.SetReadDeadline" ∈ O4.Facts.Obfs4.obfs4Conn_closeAfterDelay_calls ∧
+    "io.Copy" ∈ O4.Facts.Obfs4.obfs4Conn_closeAfterDelay_calls ∧
+    "Conn.Close" ∈ O4.Facts.Obfs4.obfs4Conn_closeAfterDelay_calls ∧
+    "Conn.Write" ∉ O4.Facts.Obfs4.obfs4Conn_closeAfterDelay_calls ∧
+    "Conn.SetDeadline" ∈ O4.Facts.Obfs4.obfs4Conn_serverHandshake_calls := by
+  decide
 
 end C03
